@@ -34,7 +34,8 @@ RULE = (
     "siblings/cousins), polymorphic_load None/inline/selectin, optional Mapper.with_polymorphic='*' on the base, discriminator str/int via column / attribute name / CASE expression, "
     "concrete root table/abstract/plain and per-intermediate own polymorphic_union, optional referencing entity; 0-12 rows (drawn "
     "distinct PKs, class index modulo the instantiable classes, values incl. NULL) inserted by raw Core INSERT; every class is queried "
-    "with select(Q) plus 0-10 drawn variants. Non-trivial: hierarchy depth>=2, rows in >=3 distinct classes, and a query at a "
+    "with select(Q) plus 0-10 drawn variants, each top-level variant in one of three execution modes: normal (fresh Session), populate_existing in a fresh Session, "
+    "populate_existing in a Session that already holds every row of the subtree fully loaded (execution option / Query.populate_existing() / Session.get(populate_existing=True)). Non-trivial: hierarchy depth>=2, rows in >=3 distinct classes, and a query at a "
     "non-root non-leaf class whose expected result is non-empty; distinct = canonical JSON of the case"
 )
 ASSUMPTIONS = [
@@ -249,7 +250,22 @@ def _run_variant(b, eng, rows, nrefs, q, v):
     where = f"[{cfg['kind']} on={cfg['on']}] {name} at C{q}"
     eager = {"mapper": True, "tag": name}
 
+    mode = v.get("mode") or "normal"
+    if name in REF_VARIANTS[2:]:
+        mode = "normal"
+    pe = mode != "normal"
+    if pe:
+        where += f" [{mode}]"
     with Session(eng) as s:
+        keep = []
+        if mode == "pe_loaded":
+            # the Session already holds every row of the queried subtree as a fully loaded object of its own class
+            for r in _expected_rows(cfg, sh, rows, q):
+                o = s.get(b.classes[r["cls"]], r["id"])
+                if o is not None:
+                    for n in P.attr_names(cfg, sh, r["cls"]):
+                        getattr(o, n, None)
+                    keep.append(o)
         if name in ("plain", "aliased", "wp", "wp_explicit", "selectin", "legacy", "join_of_type"):
             ent = Q
             opts = []
@@ -294,6 +310,8 @@ def _run_variant(b, eng, rows, nrefs, q, v):
                     exp = sorted(exp, key=lambda r: r["id"])[offset : offset + limit]
                 elif ordered:
                     exp = sorted(exp, key=lambda r: r["id"])
+                if pe:
+                    qq = qq.populate_existing()
                 objs = qq.all()
             else:
                 stmt = select(ent)
@@ -316,6 +334,8 @@ def _run_variant(b, eng, rows, nrefs, q, v):
                     stmt = stmt.limit(limit).offset(offset)
                     exp = exp[offset : offset + limit]
                     where += f" order_by(id).limit({limit}).offset({offset})"
+                if pe:
+                    stmt = stmt.execution_options(populate_existing=True)
                 objs = s.scalars(stmt).all()
             _check_result(objs, exp, ordered, b, q, eager, where)
         elif name == "get":
@@ -323,7 +343,7 @@ def _run_variant(b, eng, rows, nrefs, q, v):
             exprx = _expr_excluded(cfg, sh, q)
             probe = [r["id"] for r in rows] + [99]
             for pk in probe:
-                o = s.get(Q, pk)
+                o = s.get(Q, pk, populate_existing=True) if pe else s.get(Q, pk)
                 w = f"{where} Session.get(C{q}, {pk})"
                 if pk in exp_ids:
                     if o is None:
@@ -457,6 +477,19 @@ def check_hier(case, ctx):
                 classes.add("v:wp-flat")
             if v.get("aliased"):
                 classes.add("v:wp-aliased")
+        mode = v.get("mode") or "normal"
+        if rn in REF_VARIANTS[2:]:
+            mode = "normal"
+        if mode != "normal":
+            classes.add(f"mode:{mode}")
+            # the SELECT of this variant does not cover every column of some returned row's most specific class
+            full = rn == "wp_explicit" or (rn in ("wp", "join_of_type") and (v.get("star") or cfg["kind"] == "concrete") and (rn == "wp" or v.get("wpj")))
+            partial = not full and any(
+                r["cls"] != q and any(cl[j]["cols"] for j in sh["path"][r["cls"]] if j not in sh["path"][q]) for r in _expected_rows(cfg, sh, rows, q)
+            )
+            if partial:
+                classes.add("populate_existing:select-misses-subclass-columns")
+                classes.add(f"populate_existing:select-misses-subclass-columns:{mode}")
         if v.get("filt"):
             classes.add("q:filter")
         if v.get("limit"):
@@ -542,6 +575,8 @@ def _cases(draw):
     for _ in range(draw(st.integers(0, 10))):
         name = draw(st.sampled_from(REF_VARIANTS if h["ref"] and kind != "concrete" and draw(st.booleans()) else TOP_VARIANTS))
         v = {"at": draw(st.integers(0, 7)), "v": name}
+        if name not in REF_VARIANTS[2:]:
+            v["mode"] = draw(st.sampled_from(["normal", "pe_loaded", "pe_fresh", "normal"]))
         if name == "join_of_type":
             v["wpj"] = draw(st.booleans())
         if name in ("wp", "aliased", "selectin", "join_of_type", "rel_selectin_of_type", "rel_joined_of_type", "rel_selectin_sip"):
